@@ -299,7 +299,9 @@ impl<'a> PW<'a> {
             Ok(x) => (u(x.offer_amount), cj(&x.swap_fees), cj(&x.protocol_fees), cj(&x.burn_fees), cj(&x.extra_fees), cj(&x.slippage_amounts)),
             Err(_) => (json!([]), cj(&e), cj(&e), cj(&e), cj(&e), cj(&e)),
         };
-        self.t.emit("q_rroute", json!({"n": hops.len(), "ask": limbs(ask), "ok": r.is_ok(), "offer": offer, "chain": chain,
+        let asc = |v: &Vec<Coin>| v.windows(2).all(|p| p[0].denom < p[1].denom);
+        let sorted_lists = match &r { Ok(x) => asc(&x.swap_fees) && asc(&x.protocol_fees) && asc(&x.burn_fees) && asc(&x.extra_fees) && asc(&x.slippage_amounts), Err(_) => true };
+        self.t.emit("q_rroute", json!({"n": hops.len(), "ask": limbs(ask), "ok": r.is_ok(), "offer": offer, "chain": chain, "lists_sorted": sorted_lists,
             "swap_fees": sw, "protocol_fees": pr, "burn_fees": bu, "extra_fees": ex, "slippage_amounts": sl}));
     }
     /// Pools{} page by page against the full listing
@@ -639,6 +641,8 @@ fn sc_swaps_and_routes(t: &mut Tracer) {
         w.rroute(ask.min(1_000_000_000), &r3);
     }
     w.rroute(1_000_000, &[h("o.cp1", "uusdc", "uusdt"), h("o.cp2", "uusdt", "uweth"), h("o.ss3", "uweth", "uusd"), h("o.ss1", "uusd", "uusdc"), h("o.cp0", "uusd", "uom")]);
+    // two hops paying out the same denom: their fees are summed into one entry
+    w.rroute(1_000_000, &[h("o.cp1", "uusdc", "uusdt"), h("o.cp2", "uusdt", "uweth"), h("o.ss3", "uweth", "uusdt")]);
     w.rroute(u128::MAX / 2, &r2);
     w.rroute(1000, &[h("o.cp1", "uusdc", "uusdt"), h("o.nope", "uusdt", "uweth")]);
     w.rroute(1000, &[h("o.cp1", "uusdc", "uusdt"), h("o.cp2", "uusdc", "uweth")]);
